@@ -352,16 +352,20 @@ def onData (sp : SpSt) (f : FaceId) (d : Data) (tk : STok) (obs : List Obs) (pit
         let most := (sp.pends.filter fun p => p.face == g && possMatch p.key).length
         if most > 0 && have_ > most then some (fail "C01-too-many-copies" "count" s!"face {g} received {have_} copies for {most} pending Interest(s)") else none)
     -- ---------------------------------------------------------------- ledger update
-    let certainConsume (k : Key) : Bool := match tk with
+    let certainConsume (k : Key) : Bool := !inboundMaybe && match tk with
       | .label _ => sp.pends.any fun p => p.key == k && certMatch p
       | .foreign6 => false
-      | _ => byName k && !inboundMaybe
+      | _ => byName k
     let pends := sp.pends.filterMap fun p =>
       if certainConsume p.key then none
       else if possMatch p.key then some { p with certainUntil := 0 }
       else some p
     let outs := sp.outs.filter fun o => !possMatch o.key
     let cached := if sp.csAdmit && !(sp.cached.contains d.name) then d.name :: sp.cached else sp.cached
-    ({ sp0 with pends := pends, outs := outs, cached := cached }, fails)
+    /- satisfaction puts (Data name, out-record nonce) on the dead nonce list: every nonce seen so far
+       may from now on be dead under the Data's name -/
+    let nonces := (sp.usedNonce.map (·.2)).eraseDups
+    let used := nonces.foldl (fun acc n => if acc.contains (d.name, n) then acc else (d.name, n) :: acc) sp.usedNonce
+    ({ sp0 with pends := pends, outs := outs, cached := cached, usedNonce := used }, fails)
 
 end Ndn.Fw.Spec
